@@ -151,6 +151,12 @@ func Assert(c bool, msg string) {
 }
 
 func Fail(msg string)  { Failures = append(Failures, "failure: "+msg) }
+
+// Unsupported ends the path as inconclusive: the harness met something its
+// oracle does not model. It is reported, never counted as a violation.
+func Unsupported(msg string) { UnsupportedMsgs = append(UnsupportedMsgs, msg) }
+
+var UnsupportedMsgs []string
 func Reach(tag string) { Reached[tag] = true }
 func Note(msg string)  {}
 
@@ -166,6 +172,11 @@ func Thorough() bool { return os.Getenv("GOSX_TIER") == "thorough" }
 // the engine assumes result < f(method, n) when f returns a positive value.
 // Every bound in force is reported in the evidence. Natively a no-op.
 func DrawPolicy(f func(method string, n int) int) {}
+
+// RewindDraws makes the seeded draws (not the process-global ones) repeat
+// from the start, for 2-safety harnesses that run the same code twice.
+// Natively: obtain a new generator with Rand(), which restarts the script.
+func RewindDraws() {}
 
 // ForkSmallTables makes the engine case-split lookups with a symbolic index
 // into constant tables of at most 4 entries instead of building an ite.
